@@ -99,7 +99,7 @@ CLAIMED = {
     },
     "C09": {
         "text": "Public entry get_date_data for weekday-only, time-only (UTC and fixed-offset TIMEZONE), month-only, "
-                "day+month and two-digit-year English templates with the reference instant (years 5-9995; 1970-2067 for "
+                "day+month, day+month+HH:MM and two-digit-year English templates with the reference instant (years 5-9995; 1970-2067 for "
                 "two-digit years), day numbers, HH:MM and YY symbolic, per PREFER_DATES_FROM value: z3 shows per path "
                 "not-after / not-before, nearest occurrence (weekday: 1..7 days; time: same/adjacent day), current_period "
                 "windows and preservation of the named parts; the time-only form also under tz-database zones with "
@@ -145,7 +145,7 @@ CLAIMED = {
     "C13": {
         "text": "Selection law: the real DateDataParser.get_date_data/_get_applicable_locales and LocaleDataLoader run "
                 "with per-locale applicability (raw and tz-stripped string) and per-locale parse outcome replaced by "
-                "symbolic bits; language sequences (<= 3 of a pool of 4 + an unknown code), DEFAULT_LANGUAGES (<= 2) and "
+                "symbolic bits; language sequences (<= 3 of a pool of 4 + an unknown code; plus one pool {script variant, base language, a language ranked between} per script-variant language of the index), DEFAULT_LANGUAGES (<= 2) and "
                 "use_given_order are enumerated by solver-driven forking; z3 shows per path that the reported locale is the "
                 "first one, in priority or given order, that is applicable and parses, that defaults are used only when "
                 "none of the selected succeeds, and that an unknown code raises ValueError. Relational tasks: "
